@@ -13,6 +13,7 @@ package main
 import (
 	"fmt"
 	"runtime/debug"
+	"strings"
 	"time"
 
 	"verif/lib/runner"
@@ -22,7 +23,7 @@ func main() {
 	runner.Main(runner.Config{
 		ID:    "C14",
 		Level: "model_checking",
-		Rule: "scaled builds (window/threshold 8/2 and 4/1, verified behaviourally at run time): 'binary' = every (old,new) over {0,1} up to a length bound; 'pattern' = every equality pattern between old and new for every new length up to ~1.5 (8/2) or 3 (4/1) windows and every old length in {0..n, n+1, n+window+1}, new bytes position-dependent; each pair x every way to cut new into <=3 writes (cut positions 0..n, repeated positions = empty writes) x every tagging of the cuts with {nothing, Flush, Flush+resume in a new session from ReadOffset/OverlayOffset, the same after the abandoned session went on writing stale bytes}. Full scale (window/threshold detected behaviourally): old/new built from <=3-4 alternating equal/differing runs with lengths in {1,T-1,T,T+1,2T,W-T,W,W+1}, tails only in old or only in new, written in chunks of {1,4KiB,32KiB,W,W+1,everything} with flush/resume marks at every write boundary (singles, pairs for the window-sized chunks), partly through real files exactly as the overlay bowl does. Oracle: OverlayPatchContext.Patch onto a copy of old + truncate at the final position == new; an independent decoder/applier of the overlay stream agrees; ReadOffset/OverlayOffset after Flush equal the bytes consumed/produced. Non-trivial = the overlay contains both a SKIP and a FRESH op of non-zero length.",
+		Rule:  "scaled builds (window/threshold 8/2 and 4/1, verified behaviourally at run time): 'binary' = every (old,new) over {0,1} up to a length bound; 'pattern' = every equality pattern between old and new for every new length up to ~1.5 (8/2) or 3 (4/1) windows and every old length in {0..n, n+1, n+window+1}, new bytes position-dependent; each pair x every way to cut new into <=3 writes (cut positions 0..n, repeated positions = empty writes) x every tagging of the cuts with {nothing, Flush, Flush+resume in a new session from ReadOffset/OverlayOffset, the same after the abandoned session went on writing stale bytes}. Full scale (window/threshold detected behaviourally): old/new built from <=3-4 alternating equal/differing runs with lengths in {1,T-1,T,T+1,2T,W-T,W,W+1}, tails only in old or only in new, written in chunks of {1,4KiB,32KiB,W,W+1,everything} with flush/resume marks at every write boundary (singles, pairs for the window-sized chunks), partly through real files exactly as the overlay bowl does. Oracle: OverlayPatchContext.Patch onto a copy of old + truncate at the final position == new; an independent decoder/applier of the overlay stream agrees; ReadOffset/OverlayOffset after Flush equal the bytes consumed/produced. Non-trivial = the overlay contains both a SKIP and a FRESH op of non-zero length.",
 		Assumptions: []string{
 			"the reader handed to the writer returns full reads until end of file (bytes.Reader / os.File), as the pools used by the overlay bowl do",
 			"scaled variants rebuild pwr/overlay with only overlayBufSize and overlaySameThreshold changed",
@@ -183,6 +184,7 @@ func (t *tally) add(res *result, oldLen, newLen int) {
 func scaled(w *runner.W, e *env, runOne func(Case, *runner.Rec), variant string, W, T int) {
 	bin := runner.NewSub(w, "scaled-"+variant+"-binary", runOne, runner.Variant(variant))
 	pat := runner.NewSub(w, "scaled-"+variant+"-pattern", runOne, runner.Variant(variant))
+	runs := runner.NewSub(w, "scaled-"+variant+"-runs", runOne, runner.Variant(variant))
 	if w.Variant != variant {
 		return
 	}
@@ -328,6 +330,85 @@ func scaled(w *runner.W, e *env, runOne func(Case, *runner.Rec), variant string,
 			pat.Done()
 		}
 	}
+
+	// ---- runs: long two-run contents with a moved border ------------------
+	if runs.Active() {
+		if !probe() {
+			runs.Skip(skipMsg())
+		} else {
+			runs.Note("window", gotW)
+			runs.Note("threshold", gotT)
+			runsFamily(w, e, runs, W)
+		}
+	}
+}
+
+// runsFamily: long low-entropy inputs — old = 0^a 1^(L-a), new = the same two runs with the
+// border moved by d and the length changed by e — written with one tagged cut anywhere, or
+// two tagged cuts the first of which lies within the first two windows. L is several windows
+// (and more than any reader buffer a change might put in front of the old file: 40 bytes),
+// so a comparison that is off by a few bytes still finds long equal stretches.
+func runsFamily(w *runner.W, e *env, sub *runner.Sub[Case], W int) {
+	lens := []int{5*W + 0, 40}
+	if w.Quick() {
+		lens = []int{40}
+	}
+	var tl tally
+	ord := 0
+	for _, L := range lens {
+		for a := 1; a < L; a++ {
+			for _, d := range []int{-2, -1, 1, 2, 3} {
+				for _, el := range []int{0, 1, -1} {
+					mine := w.Owns(ord)
+					ord++
+					if !mine || w.Expired() || a+d < 0 || a+d > L+el {
+						continue
+					}
+					os := strings.Repeat("0", a) + strings.Repeat("1", L-a)
+					ns := strings.Repeat("0", a+d) + strings.Repeat("1", L+el-a-d)
+					g := Gen{Kind: "lit", Old: os, New: ns}
+					old, nw := g.materialize(w.Seed)
+					n := len(nw)
+					var seqs []stepSeq
+					for c1 := 0; c1 <= n; c1++ {
+						for _, t1 := range tagSet {
+							seqs = append(seqs, stepSeq{[]int{0, c1, n}, []string{t1, ""}})
+							if c1 > 2*W+1 {
+								continue
+							}
+							for c2 := c1; c2 <= n; c2++ {
+								for _, t2 := range tagSet {
+									seqs = append(seqs, stepSeq{[]int{0, c1, c2, n}, []string{t1, t2, ""}})
+								}
+							}
+						}
+					}
+					e.memo = map[string]memoEntry{}
+					for _, sq := range seqs {
+						res := e.runCase(old, nw, sq.bounds, sq.tags, false)
+						tl.add(&res, len(old), len(nw))
+						for _, f := range res.fails {
+							if tl.report(f.fp) {
+								sub.Report(sq.toCase(g), f.fp, "%s", f.msg)
+							}
+						}
+					}
+					if ord%211 == 0 {
+						sub.Sample(seqs[len(seqs)/2].toCase(g))
+					}
+				}
+			}
+		}
+	}
+	e.memo = nil
+	sub.Bulk(tl.evals, tl.nontriv, tl.trans)
+	for c, n := range tl.outcomes {
+		if n > 0 {
+			sub.BulkOutcome(outcomeName(c), n)
+		}
+	}
+	sub.Note("lengths", fmt.Sprint(lens))
+	sub.Done()
 }
 
 // ---------------------------------------------------------------------------
